@@ -69,6 +69,12 @@ def cases(draw, sound, small=False):
     # (minpks, tol) entry for indexing.index as in its default argument
     if c["driver"] in ("score_all_pairs", "index") and ng * nrefl <= (400 if small else 1500):
         c["passes"] = draw(st.sampled_from([1, 2, 2, "rings+2"]))
+    if not sound:
+        # incomplete, grain dependent coverage of the rings: reflections within 25 or 40 degrees of the rotation axis
+        # never diffract (ideal data all the same); the required fraction is lowered accordingly
+        c["cone"] = draw(st.sampled_from([0, 0, 25, 40])) if c["driver"] != "do_index" else 0
+        if c["cone"]:
+            c["frac"] = 0.5
     if c["driver"] == "do_index":
         # orientations generated from one ring only; or the same unitcell object used for an earlier run on the
         # low-angle rings (ring tables shrink and grow again)
@@ -118,6 +124,8 @@ def build(case):
         if case["sound"] and case["delete"]:
             keep = rng.random_sample(len(hk)) >= case["delete"]
         gg = (UB @ hk[keep].T).T
+        if case.get("cone"):
+            gg = gg[np.abs(gg[:, 2]) < np.cos(np.radians(case["cone"])) * np.linalg.norm(gg, axis=1)]
         if case["sound"]:
             gg = gg + rng.standard_normal(gg.shape) * case["noise"]
         gvs.append(gg)
@@ -195,10 +203,23 @@ def check(case, rec=None):
             if passes != 1:
                 minpks_low = max(3, (2 * minpks) // 3)
                 npk_tol.append((minpks_low, tol))
+            npk_before = list(npk_tol)
             ok, ind = guard(indexing.index, cf, npk_tol=npk_tol, cosine_tol=abs(case["cosine_tol"]),
                             ds_tol=case["ds_tol"], max_grains=100, rmulmax=1000, log_level=10)
             if not ok:
                 return [exc_failure("indexing.index", ind)]
+            if list(npk_tol) != npk_before:
+                fails.append(fail("inputs", "indexing.index changed the npk_tol list it was given (%s -> %s): the next "
+                                  "data set indexed with the same schedule gets fewer passes" % (npk_before, list(npk_tol)),
+                                  inv="inputs"))
+            # the same function called again in this process with its default schedule ([(400, .01), (200, .02)])
+            # must still run its passes: an indexer comes back having tried them (minpks is that of the last pass)
+            ok, ind_d = guard(indexing.index, cf, cosine_tol=abs(case["cosine_tol"]), ds_tol=case["ds_tol"],
+                              max_grains=5, rmulmax=2, maxpairs=1, log_level=10)
+            if ok and (ind_d.minpks, ind_d.hkl_tol) != (200, 0.02):
+                fails.append(fail("inputs", "indexing.index with its default schedule ended with minpks=%r hkl_tol=%r, the "
+                                  "last entry of the documented default is (200, 0.02)" % (ind_d.minpks, ind_d.hkl_tol),
+                                  inv="defaults"))
         else:
             probe = indexing.indexer(unitcell=uc, gv=gv, ds_tol=case["ds_tol"])
             probe.assigntorings()
@@ -327,7 +348,8 @@ def check(case, rec=None):
         rec.case(case, nt, ["sound" if case["sound"] else "complete", "lat:" + case["lattice"],
                             "driver:" + case["driver"]] + (["cosine_all_mode"] if case["cosine_tol"] < 0 else []) +
                  (["second_pass"] if passes != 1 else []) +
-                 (["do_index:" + case["dohist"]] if case.get("dohist", "none") != "none" else []))
+                 (["do_index:" + case["dohist"]] if case.get("dohist", "none") != "none" else []) +
+                 (["blind_cone:%d" % case["cone"]] if case.get("cone") else []))
         rec.note("reported_ubis", len(ubis))
     return fails
 
